@@ -11,16 +11,6 @@ mod verif_demo_c06_xls_formula_panics {
         let enc = XlsEncoding::from_codepage(1200).unwrap();
         parse_formula(&rgce, &sheets, &[], &xtis, &enc).map_err(|e| e.to_string())
     }
-    // PtgFunc with iftab == FTAB_LEN (485): the guard is `iftab > FTAB_LEN`, then FTAB_ARGC[485] is indexed
-    #[test]
-    #[should_panic(expected = "index out of bounds: the len is 485 but the index is 485")]
-    fn verif_demo_xls_ptgfunc_iftab_485() {
-        let _ = pf(&[0x21, 0xE5, 0x01]);
-    }
-    #[test]
-    fn verif_demo_xls_ptgfunc_iftab_486_is_err_ok() {
-        assert!(pf(&[0x21, 0xE6, 0x01]).is_err());
-    }
     // PtgFuncVar with argc == 0 indexes FTAB[iftab] without any check
     #[test]
     #[should_panic(expected = "index out of bounds")]
